@@ -196,17 +196,13 @@ def check(ctx):
     ctx.rule("R5", "keys distinct: DEVICES keys, upper-cased sensor names, heater/watercare/reminders/keypad literals and the eco key are pairwise distinct; unique_id = parent-key")
     ctx.rule("R7", "device table completeness: every pump P<n>, Waterfall, BL and LI that a shipped log table offers with a Ud<device> demand has a DEVICES row of the matching class")
     ctx.rule("R6", "get_device returns the first element whose key equals the argument; devices lists the keys of the same list")
-    scans = []
-    for cname, fname in SCANS:
-        scans.append(check_scan(ctx, repo, cname, fname))
+    # R1-R3 by interpretation on model wirings (vlib/facademodel.py): both scans against the statement
+    from ..facademodel import inventory
+    inv = inventory(ctx, repo, "R1", SCANS)
     check_table_order_source(ctx, repo)
-    # R2
-    if all(scans):
-        from ..src import alpha_text
-        norm = [alpha_text(fi) for fi in scans]
-        ctx.ob("R2", "scan-siblings-agree", norm[0] == norm[1],
-               f"{scans[0].qual} and {scans[1].qual} differ after normalisation: " + _first_diff(norm[0], norm[1]), scans[1].loc)
-
+    scans = []
+    diff = sorted({(w, d) for (w, d, c) in inv if inv[(w, d, c)] != inv.get((w, d, SCANS[0][0]))})
+    ctx.ob("R2", "scan-siblings-agree", not diff, f"the async and the blocking scan build different inventories for wirings {diff[:3]}", repo.method(*SCANS[1]).loc)
     # R4 table join
     c = repo.cls("GeckoConstants")
     DEV = class_const(repo, "GeckoConstants", "DEVICES")
@@ -283,41 +279,53 @@ def check(ctx):
     ctx.ob("R5", "automation-keys::distinct", not dup, f"automation keys are not pairwise distinct: {dup} (two devices would share a unique id and get_device would return the wrong one)",
            c.loc, sample={"rule": "R5", "keys": keys})
     ctx.count("R5:keys", len(keys))
-    # sensor key = name.upper()
-    sb = repo.own_method("GeckoSensorBase", "__init__")
-    ok = any(isinstance(n2, ast.Call) and "super" in ast.unparse(n2.func) and len(n2.args) == 3 and ast.unparse(n2.args[2]) == "name.upper()" for n2 in ast.walk(sb.node))
-    ctx.ob("R5", "GeckoSensorBase::key-is-upper-name", ok, "sensor key is no longer name.upper()", sb.loc)
-    uid = repo.own_method("GeckoAutomationBase", "unique_id")
-    rets = [n2 for n2 in ast.walk(uid.node) if isinstance(n2, ast.Return)]
-    ok = len(rets) == 1 and isinstance(rets[0].value, ast.JoinedStr) and ast.unparse(rets[0].value) in ("f'{self._unique_id}-{self._key}'",)
-    ctx.ob("R5", "unique_id::parent-dash-key", ok, f"unique_id is not f'{{parent}}-{{key}}': {ast.unparse(rets[0].value) if rets else None}", uid.loc)
-    kp = repo.own_method("GeckoAutomationBase", "key")
-    ctx.ob("R5", "key::returns-key", "return self._key" in ast.unparse(kp.node), "key property does not return the key", kp.loc)
-    # switch/pump pass the DEVICES key as key
-    for cname in ("GeckoSwitch", "GeckoPump"):
-        init = repo.own_method(cname, "__init__")
-        ok = any(isinstance(n2, ast.Call) and "super" in ast.unparse(n2.func) and [ast.unparse(a) for a in n2.args] == ["facade", "props[0]", "key"] for n2 in ast.walk(init.node))
-        ctx.ob("R5", f"{cname}::key-is-device-key", ok, f"{cname} does not register under its device key", init.loc)
+    # keys and ids of constructed objects (by interpretation; vlib/facademodel.py model spa)
+    from ..absint import ClassRef, Interp, Native, Obj, PyRaise, Undecided
+    from ..facademodel import Rec, accessor, model_facade
+    interp = Interp(repo, max_depth=12)
+    try:
+        base = interp.apply(ClassRef(repo.cls("GeckoAutomationBase")), ["PARENT", "A name", "Parent name", "KEY"], {})
+        uid, k = interp.getattr(base, "unique_id"), interp.getattr(base, "key")
+    except (PyRaise, Undecided) as e:
+        raise AnalysisError(f"GeckoAutomationBase: {e}")
+    ctx.ob("R5", "unique_id::parent-dash-key", uid == "PARENT-KEY", f"unique_id of (parent id 'PARENT', key 'KEY') is {uid!r}, expected 'PARENT-KEY'", repo.method("GeckoAutomationBase", "unique_id").loc)
+    ctx.ob("R5", "key::returns-key", k == "KEY", f"key of an object registered under 'KEY' is {k!r}", repo.method("GeckoAutomationBase", "key").loc)
+    rec = Rec()
+    accs = {"StateKey": accessor(rec, "StateKey", "OFF"), "UdDEV": accessor(rec, "UdDEV", "OFF"), "SensorKey": accessor(rec, "SensorKey", 1, "Byte")}
+    fac, _spa = model_facade(rec, accs)
+    row = ("Device name", 3, "StateKey", "PUMP")
+    for cname, args in (("GeckoSwitch", [fac, "DEV", row]), ("GeckoPump", [fac, "DEV", row, {"demand": "UdDEV", "options": ["OFF", "HI"]}]),
+                        ("GeckoBlower", [fac, "DEV", row]), ("GeckoLight", [fac, "DEV", row])):
+        try:
+            interp.steps = 0
+            o = interp.apply(ClassRef(repo.cls(cname)), args, {})
+            got = (interp.getattr(o, "key"), interp.getattr(o, "unique_id"))
+        except (PyRaise, Undecided) as e:
+            raise AnalysisError(f"{cname}(...): {e}")
+        ctx.ob("R5", f"{cname}::key-is-device-key", got == ("DEV", "SPA-ID-DEV"), f"{cname} built for device key 'DEV' on facade 'SPA-ID' has (key, unique id) {got}, expected ('DEV', 'SPA-ID-DEV')", repo.method(cname, "__init__").loc)
+    try:
+        interp.steps = 0
+        sn = interp.apply(ClassRef(repo.cls("GeckoSensor")), [fac, "Some Sensor", accs["SensorKey"]], {})
+        got = interp.getattr(sn, "key")
+    except (PyRaise, Undecided) as e:
+        raise AnalysisError(f"GeckoSensor(...): {e}")
+    ctx.ob("R5", "GeckoSensorBase::key-is-upper-name", got == "SOME SENSOR", f"sensor 'Some Sensor' has key {got!r}, expected 'SOME SENSOR' (R5 counts sensor keys as upper-cased names)", repo.method("GeckoSensorBase", "__init__").loc)
 
-    # R6 lookup
-    for fac in ("GeckoAsyncFacade", "GeckoFacade"):
-        gd = repo.own_method(fac, "get_device")
-        g = cfg_of(gd)
-        rets = [n2 for n2 in g.stmt_nodes() if isinstance(n2.ast, ast.Return) and n2.ast.value is not None and not (isinstance(n2.ast.value, ast.Constant))]
-        ok = len(rets) == 1
-        if ok:
-            r = rets[0]
-            fors = [n2 for n2, l in g.guards(r) if n2.kind == "for" and l == "iter"]
-            lp = fors[-1] if fors else None
-            ok = lp is not None and ast.unparse(lp.ast.iter) == "self.all_automation_devices" and ast.unparse(r.ast.value) == ast.unparse(lp.ast.target)
-            facts = g.guard_atoms(r)
-            p = gd.node.args.args[1].arg
-            tgt = ast.unparse(lp.ast.target) if lp is not None else "?"
-            ok = ok and ((f"{tgt}.key == {p}", True) in facts or (f"{p} == {tgt}.key", True) in facts)
-        ctx.ob("R6", f"{fac}.get_device::first-match-by-key", ok, f"{fac}.get_device does not return the first device whose key equals the argument", gd.loc)
-        dv = repo.own_method(fac, "devices")
-        ok = any(isinstance(n2, ast.ListComp) and ast.unparse(n2.generators[0].iter) == "self.all_automation_devices" and ast.unparse(n2.elt) == f"{ast.unparse(n2.generators[0].target)}.key" for n2 in ast.walk(dv.node))
-        ctx.ob("R6", f"{fac}.devices::keys-of-same-list", ok, f"{fac}.devices does not list the keys of all_automation_devices", dv.loc)
+    # R6 lookup (by interpretation): first element whose key matches; None when absent; devices lists the keys
+    for fac_c in ("GeckoAsyncFacade", "GeckoFacade"):
+        devs = [Obj(None, {"key": "A", "n": 1}), Obj(None, {"key": "B", "n": 2}), Obj(None, {"key": "A", "n": 3})]
+        me = Obj(repo.cls(fac_c), {})
+        it2 = Interp(repo)
+        it2.attr_hook = lambda _i, b_, a_, me=me, devs=devs: devs if (b_ is me and a_ == "all_automation_devices") else NotImplemented
+        gd = repo.method(fac_c, "get_device")
+        try:
+            ra, rb, rz = (it2.call(gd, me, [kk]) for kk in ("A", "B", "Z"))
+            keys = it2.getattr(me, "devices")
+        except (PyRaise, Undecided) as e:
+            raise AnalysisError(f"{fac_c}.get_device: {e}")
+        ctx.ob("R6", f"{fac_c}.get_device::first-match-by-key", ra is devs[0] and rb is devs[1] and rz is None,
+               f"{fac_c}.get_device on devices keyed [A, B, A] returns {[getattr(x, 'attrs', {}).get('n') if x is not None else None for x in (ra, rb, rz)]} for A, B, Z - expected the first A, B, None", gd.loc)
+        ctx.ob("R6", f"{fac_c}.devices::keys-of-same-list", list(keys) == ["A", "B", "A"], f"{fac_c}.devices is {keys}, expected the keys of all_automation_devices in order", repo.method(fac_c, "devices").loc)
     ctx.note("NOT decided: that startswith-matching yields exactly the wired devices for label sets never shipped (e.g. a label that is a prefix of another device's label).")
 
 
